@@ -26,7 +26,8 @@ type opSpec struct {
 	Keep    bool     `json:"keep_project,omitempty"`         // REPL: Run again on the Project of the previous operation, no reload (only when no code was edited since)
 	DryNil  bool     `json:"dry_then_nil_options,omitempty"` // on one loaded project: a dry run, (N=1: Reload,) then Run with nil options
 	N       int      `json:"n,omitempty"`
-	CrashAt int      `json:"crash_at,omitempty"` // the simulated process dies at this scheduler step
+	CrashAt int      `json:"crash_at,omitempty"`           // the simulated process dies at this scheduler step
+	IOErrPM int      `json:"io_error_per_mille,omitempty"` // every file operation of this process fails with this probability
 }
 
 // Edit classes.
